@@ -114,9 +114,15 @@ func vC07Core(L int) {
 	var sub Subscription
 	func() {
 		defer func() { escaped = recover() }()
-		sub = obs.SubscribeWithContext(context.Background(), vObs(rec, vFlatInt))
+		sub = obs.SubscribeWithContext(context.WithValue(context.Background(), vKeySub, int64(7)), vObs(rec, vFlatInt))
 	}()
 	vAssert(escaped == nil, "core: a panic in a user function escaped into the caller of Subscribe")
+	for _, e := range rec.evs {
+		// C09: the Error a failure turns into is a notification like any other
+		vAssert(e.ctx != nil, "core: a callback was invoked with a nil context")
+		m, ok := e.ctx.Value(vKeySub).(int64)
+		vAssert(ok && m == 7, "core: a context value attached at subscription is lost (on the notification a failure turned into)")
+	}
 	vCheckGrammar("core", rec)
 	if fired > 0 {
 		switch where {
